@@ -147,14 +147,15 @@ class AddLinear(Contract):
             [(0, k), (0, F.width)],
             lambda r, c: cur.cms(r, c) == z3.If(z3.And(c == COL(F, kid, r), pre.cms(r, c) < new), new, pre.cms(r, c)),
         )
-        yield "x-rest", F.forall(cells, lambda r, c: z3.Implies(r >= k, cur.cms(r, c) == pre.cms(r, c)))
+        yield "rest", F.forall(cells, lambda r, c: z3.Implies(r >= k, cur.cms(r, c) == pre.cms(r, c)))  # rows not yet visited are untouched (any row-by-row update rule)
         # weak invariants: enough for the property-derived clauses, true for any sound update rule
         yield "w-lower", F.forall([(0, k)], lambda r: cur.cms(r, COL(F, kid, r)) >= new)
         yield "w-mono", F.forall(cells, lambda r, c: cur.cms(r, c) >= pre.cms(r, c))
         yield "w-frame", F.forall(cells, lambda r, c: z3.Implies(c != COL(F, kid, r), cur.cms(r, c) == pre.cms(r, c)))
+        # (the same bound as the post clause, so that any sound update rule - conservative or plain - keeps it)
         yield "w-upper", F.forall(
             [(0, F.depth)],
-            lambda r: cur.cms(r, COL(F, kid, r)) <= z3.If(pre.cms(r, COL(F, kid, r)) >= new, pre.cms(r, COL(F, kid, r)), new),
+            lambda r: cur.cms(r, COL(F, kid, r)) <= z3.If(pre.cms(r, COL(F, kid, r)) + F.value <= F.uint_maxval, pre.cms(r, COL(F, kid, r)) + F.value, F.uint_maxval),
         )
         yield "counters", z3.And(
             cur.n_added_records(0) == L.entry.n_added_records(0), cur.n_added_records(1) == L.entry.n_added_records(1)
@@ -393,7 +394,7 @@ class _AddLog(Contract):
             [(0, k), (0, F.width)],
             lambda r, c: cur.cms(r, c) == z3.If(z3.And(c == COL(F, kid, r), pre.cms(r, c) < new), new, pre.cms(r, c)),
         )
-        yield "x-rest", F.forall(cells, lambda r, c: z3.Implies(r >= k, cur.cms(r, c) == pre.cms(r, c)))
+        yield "rest", F.forall(cells, lambda r, c: z3.Implies(r >= k, cur.cms(r, c) == pre.cms(r, c)))  # rows not yet visited are untouched (any row-by-row update rule)
         yield "w-lower", F.forall([(0, k)], lambda r: cur.cms(r, COL(F, kid, r)) >= new)
         yield "w-mono", F.forall(cells, lambda r, c: cur.cms(r, c) >= pre.cms(r, c))
         yield "w-frame", F.forall(cells, lambda r, c: z3.Implies(c != COL(F, kid, r), cur.cms(r, c) == pre.cms(r, c)))
